@@ -26,6 +26,10 @@ def wellformed(rng, fmt, small=True):
         if rng.random() < 0.5:
             p['filler_seed'] = rng.getrandbits(30)
             p['version'] = 3
+        if rng.random() < 0.4:
+            p['version'] = 3
+            p['exts'] = [[rng.choice([0xE2792ACA, 0x6803F857, 0x44415441, 0x0537BE77, 0x23852875, 0x12345678]),
+                          rng.choice([0, 1, 5, 8, 24, 48])] for _ in range(rng.randrange(1, 4))]
     elif fmt in ('vhd', 'vdi'):
         p = dict(size=size_pool(rng), total=rng.choice([512, 513, 4096, 66000]))
         if rng.random() < 0.5:
